@@ -17,7 +17,14 @@ from harness.common.num import q, unq
 PID = "C17"
 LEVEL = "proof"
 REQUIRED_THEOREMS = [
-    "subdivide_sum", "subdivide_pos", "subdivide_balanced", "slices_tile",
+    "subdivide_sum", "subdivide_pos", "subdivide_balanced", "subdivide_contract", "contractB_iff", "balancedB_iff",
+    "slices_tile", "slices_tile_nd", "boxes_cover", "boxes_disjoint", "box_in_array", "id_idx_bijection",
+    "bounds_tile", "subgrid_spacing", "cell_coords_agree", "volumes_add_up", "volumes_add_up_nd",
+    "combine_extract_id", "combine_extract_id_list", "extract_combine_id", "extract_combine_id_consistent",
+    "combineUpTo_spec", "neighbor_symmetric", "neighbor_none_iff", "neighbor_respects_periodicity",
+    "neighbor_adjacent", "flags_match", "get?_extract_ghost", "operator_commutes_with_split",
+    "operator_split_combine", "ghost_exchange", "too_many_chunks_raises", "fromGrid_too_many_chunks",
+    "cylinder_split_raises", "admissible_ok", "cylinder_z_split_ok",
 ]
 RULE = ("every decomposition (chunk vector <= shape, all periodic flags) of small Cartesian grids "
         "(1-d <= 12 cells, 2-d <= 6x5, 3-d <= 4x3x3: exhaustive in thorough, a seed-chosen subset in quick) "
